@@ -4,7 +4,7 @@ func properties() []*propDef {
 	return []*propDef{
 		{
 			ID: "C01", Title: "Compile, Evaluate and Patch are total: never panic or hang on any input",
-			Rules: []ruleFn{rulePAN1, rulePAN2, rulePAN3, rulePAN4, rulePAN5, rulePAN6, rulePAN7, rulePAN8, ruleTER1},
+			Rules: []ruleFn{rulePAN1, rulePAN2, rulePAN3, rulePAN3b, rulePAN4, rulePAN5, rulePAN6, rulePAN7, rulePAN8, rulePAN9, rulePAN10, ruleTER1},
 			Explanation: "Inventory of every instruction of a recognised crash class, and of every loop, in the repository functions reachable (VTA call graph) from the public API; each becomes an obligation that must be discharged by a guard that holds on every path.",
 			NotDecided: []string{"nil dereferences in general", "panics inside third-party code other than the summarised entry points", "stack exhaustion on adversarially deep expressions", "behaviour behind reflect"},
 			Assumptions: []string{"years are in 0..9999", "collections contain only System values and FHIR messages"},
@@ -25,7 +25,7 @@ func properties() []*propDef {
 		},
 		{
 			ID: "C05", Title: "Equality and ordering operators form one consistent partial order",
-			Rules: []ruleFn{ruleORD1, ruleORD2, ruleORD3, ruleORD5, ruleORD7},
+			Rules: []ruleFn{ruleORD1, ruleORD2, ruleORD3, ruleORD5, ruleORD6, ruleORD7},
 			Explanation: "Structural clauses of the comparison machinery: ORD1 every quantifier loop (collection equality, all/allTrue/anyTrue/…, contains) returns its all-items verdict outside the loop; ORD2 `=`/`!=` share one comparison whose no-value outcome is empty and differ by exactly one negation (SCCP with the comparison result pinned, 8 cells); ORD3 the four inequalities are oriented L<R / R<L / not(R<L) / not(L<R) over normalised operands and precision/unit mismatches give empty (SCCP with both Less results pinned, 28 cells); ORD5 IsPrimitive and From handle the same types and cover every R4 primitive datatype of the schema; ORD7 the Equal/TryEqual method shapes that the reflective dispatch of system/cmp.go relies on.",
 			NotDecided: []string{"agreement of the per-type Less/TryEqual methods with a reference comparison model (values of eight types)", "transitivity / trichotomy on values", "unit handling inside Quantity comparison"},
 			Assumptions: []string{"operator semantics table frozen in rules_c05.go"},
